@@ -8,7 +8,7 @@ CATS = ["Bool", "UInt", "Int", "Integer", "Float", "Complex", "Inexact", "Real",
 ALLCATS = ["Bool", "UInt", "Int", "Integer", "Float", "Complex", "Inexact", "Real", "Num", "Shaped", "Key", "UInt2", "UInt4", "UInt8", "UInt16", "UInt32", "UInt64", "Int2", "Int4", "Int8", "Int16", "Int32", "Int64",
            "Float8e4m3b11fnuz", "Float8e4m3fn", "Float8e4m3fnuz", "Float8e5m2", "Float8e5m2fnuz", "BFloat16", "Float16", "Float32", "Float64", "Complex64", "Complex128"]
 DIMSTRS = ["", "a", "a b", "*v", "... a", "#a 3", "a *v b", "_", "2", "a+1", "*#v c", "b ..."]
-SCALAR_DIMSTRS = ["", "...", "*v", "*#v", "4", "a b", "... 3", "*b c", "a ...", "_", "*_", "#*v"]
+SCALAR_DIMSTRS = ["", "...", "*v", "*#v", "4", "a b", "... 3", "*b c", "a ...", "_", "*_", "#*v", "2*n", "h*w", "n**2", "k=2*n", "*v 2*n"]
 
 
 def main():
